@@ -47,13 +47,13 @@ func bitstreamOpDeep(p *Prog, memo map[*ssa.Function]int) func(ssa.Instruction) 
 
 // headerSites: calls in a loop of f to a same-package function that (transitively) performs bitstream operations and
 // returns an integer first (the number of symbols of the chunk)
-func headerSites(p *Prog, f *ssa.Function) []hdrSite {
+func headerSites(p *Prog, f *ssa.Function, anywhere bool) []hdrSite {
 	var out []hdrSite
 	memo := map[*ssa.Function]int{}
 	pred := bitstreamOpDeep(p, memo)
 	eachInstr(f, func(i ssa.Instruction) {
 		c, ok := i.(*ssa.Call)
-		if !ok || !inCycle(c.Block()) {
+		if !ok || (!anywhere && !inCycle(c.Block())) {
 			return
 		}
 		h := helperCallee(i, FnPkg(f))
@@ -246,14 +246,15 @@ func rulePayloadMirror(p *Prog, r *RuleResult) {
 			return out
 		}
 		sitesOf := func(f *ssa.Function) []hdrSite {
-			if out := firstOnly(headerSites(p, f)); len(out) > 0 {
+			if out := firstOnly(headerSites(p, f, false)); len(out) > 0 {
 				return out
 			}
-			// one level down: the methods f dispatches to
+			// one level down: the methods f dispatches to (their own chunk loop), or the method that holds the body of
+			// f's chunk loop (called from inside a loop of f: then the whole helper is one iteration)
 			var out []hdrSite
 			eachInstr(f, func(i ssa.Instruction) {
 				if h := helperCallee(i, FnPkg(f)); h != nil && h.Signature.Recv() != nil && namedOf(h.Signature.Recv().Type()) == namedOf(f.Signature.Recv().Type()) {
-					out = append(out, firstOnly(headerSites(p, h))...)
+					out = append(out, firstOnly(headerSites(p, h, inCycle(i.Block())))...)
 				}
 			})
 			return out
